@@ -67,6 +67,9 @@ CHECKS["C05"] = dict(cat="proof", tech=TECH,
 CHECKS["C07"] = dict(cat="proof", tech=TECH,
    text="Contracts on the field closures of the ZHS and ARZ Askaryan models obtained from the real constructors: same field at plus and minus the viewing angle, inverse-distance scaling, invariance under a joint shift of grid and shower time, whole-sample shifts and energy proportionality on the cone (ARZ on-cone branch, element-wise exact), zero-energy fields, ValueError beyond 180 degrees. The AVZ closure and the off-cone convolution branch of ARZ are outside the executor's subset and are covered by bounded native sampling of the same obligations (labelled B, not proved), as is the peak-on-the-cone clause.",
    note=PROOF_NOTE + " Mixed level: ZHS and ARZ on-cone obligations are proved for all inputs (fft pipeline through the assumed array laws A5); the AVZ model, the ARZ off-cone branch and amplitude monotonicity are bounded stand-ins by random sampling.", ref="§5 C07")
+CHECKS["C17"] = dict(cat="proof", tech=TECH,
+   text="Contracts on the constructors and waveform closures of FullThermalNoise and FFTThermalNoise: published frequencies inside the band (bins of the extended grid for the FFT version), amplitudes from the given spectrum with the DC term zeroed, phases in range, requested/thermal rms, ValueError cases, Rayleigh default with unit mean square; the Full waveform is the normalised sum of cosines for any number of frequencies; both waveforms are functions of absolute time (same value at a shared time on any grid); the FFT version interpolates over exactly the DFT grid with the DFT period. DFT synthesis (FFT waveform = sum of its published cosines, exact rms for unit amplitudes) is checked by bounded native sampling (B).",
+   note=PROOF_NOTE + " Summation over a symbolic number of frequencies and boolean-mask selections are uninterpreted (congruence only); irfft and np.interp are known by name and element-wise shape only (A5).", ref="§5 C17")
 NOT_YET = {}
 def main():
     props = [json.loads(l) for l in open(os.path.join(HERE, "properties.jsonl"))]
